@@ -229,6 +229,10 @@ func (c *DefaultCrawler) Run(ctx context.Context, startingPeers []*peer.AddrInfo
 			continue
 		}
 		peerAddrs.addPeerAddrsNoLock(ai.ID, extendAddrs)
+		if _, ok := peersSeen[ai.ID]; ok {
+			// Listed more than once: keep the addresses, query the peer once.
+			continue
+		}
 
 		toDial = append(toDial, ai)
 		peersSeen[ai.ID] = struct{}{}
